@@ -15,7 +15,8 @@ NUMPY = ["hop_round1_numpy", "round2_text_numpy", "hop_in_domain_edd_false_numpy
          "all_rounds_numpy_edd_false", "round2_text_same_numpy", "hop_not_in_domain_numpy", "latch_round2_changes_numpy", "C08_numpy_full_false"]
 WHOLE = ["round1", "round2", "round2_same_text", "hop_round1", "hop_fixpoint", "hop_hop", "all_rounds", "all_rounds_ok", "emit_answers_noWrap", "all_rounds_noWrap",
          "C08_full_on_domain", "round2_text_differs", "announce_variant_needed", "hop_hop_false_outside", "backtick_type_needed", "outside_domain_still_fixpoint"]
-THEOREMS = ["C08Whole." + t for t in WHOLE] + ["C08.fixpoint_all_rounds", "C08.setDefaultDoc_idempotent", "C08.extract_keeps_line_when_carried", "C08.baseOf_idempotent",
+IFACE = "hop_hop_view all_rounds_view one_more_hop_view hop_closed_form hop_eq_hopIR norm_view hop_fields hop_keeps_inD02 closed_of_stable stable_of_closed chain_iface_stable all_rounds_view_stable docHyp_congr inD02_reads stable_of_laws chain_iface_laws envAll_stable closure_fails envBad_not_stable envBad_not_closed hop_self_IR rounds_self_IR hop_hop_IR argparse_hop_hop_IR argparse_hop_hop_IR_eq argparse_header_quotes_drift header_drift_class header_drift_function IRFix_proper".split()
+THEOREMS = ["C08Iface." + t for t in IFACE] + ["C08Whole." + t for t in WHOLE] + ["C08.fixpoint_all_rounds", "C08.setDefaultDoc_idempotent", "C08.extract_keeps_line_when_carried", "C08.baseOf_idempotent",
             "C08.wrapOptional_idempotent", "C08.quote_idempotent", "C08.unquote_not_idempotent"] + ["C08Google." + t for t in GOOGLE] + ["C08Numpy." + t for t in NUMPY]
 TRIGGER_DOCS = ["number of items to keep", "whether to shuffle the data", "list of layer names", "the path to the file", "true if verbose",
                 "a string naming the thing", "integer count of epochs", "One of 'a' or 'b'", "dictionary of options", "the float value"]
@@ -59,6 +60,8 @@ def gen_ir(r, fmt):
             p["default"] = r.choice(["```make_callbacks()```", "```np.zeros(3)```", "```[1, 2]```", "```lambda x: x```"])
     if r.random() < 0.3:
         ir["doc"] = r.choice(["Summary line.\n\nLonger description\nover two lines.", "  Indented summary", "Summary"])
+    if r.random() < 0.05:
+        ir["doc"] = r.choice(["'Summary line'", "''x''", '"Quoted summary."'])  # a header that is itself wrapped in quote characters
     # descriptions that span several lines (a line break inside a parameter's or the return's description is legal input)
     if r.random() < 0.25:
         ml = r.choice(["the first line\nand a second line", "values computed so far\nwith their weights\nand the rest", "short\nlonger continuation line of the description"])
@@ -126,6 +129,8 @@ def compare(chk, case, views):
             base["announce_variant_doc"] = True  # root-cause marker: a description announces a default with a phrase other than "defaults to"
         if any("\n" in (p.get("doc") or "") for p in list(ir["params"].values()) + list((ir.get("returns") or {}).values())):
             base["multiline_doc"] = True  # root-cause marker: some description of the input spans several lines
+        if len(ir.get("doc") or "") > 2 and ir["doc"][0] == ir["doc"][-1] and ir["doc"][0] in "'\"":
+            base["quoted_header"] = True  # root-cause marker: set_value strips one pair of enclosing quotes per round (theorem C08Iface.argparse_header_quotes_drift)
         if any(_code_default(p.get("default")) for p in ir["params"].values()):
             base["code_default"] = True  # root-cause marker: some parameter's default is a code-quoted (non-literal or literal-in-backticks) expression
         if "raises" in b:
@@ -240,6 +245,10 @@ def run(chk: core.Check) -> int:
         "Properties/C08Google.lean, C08Numpy.lean: the same for the Google and NumPy styles on C01Google.InDomainG / C01Numpy.InDomainN, restricted to interfaces without a "
         "require_default latch victim (NoVictim, decidable); the unrestricted statement is proved FALSE of the model (C08_google_full_false, C08_numpy_full_false) and the real code "
         "reproduces the witness (known findings with latch_candidate); the model hop hopG / hopN is compared with the real hop round by round (driver ops c08.google / c08.numpy)",
+        "Properties/C08Iface.lean: for the class / pydantic / function / argparse hops of the C02 interface model, one round is a fixpoint of the compared VIEW for every number of rounds "
+        "(all_rounds_view) under the residual hypothesis DocLayerStable (the docstring layer's answers stay in the C02 hypothesis after a hop; shown necessary by closure_fails, shown sufficient "
+        "together with hop_keeps_inD02, which is proved); as whole IRs a hop returns a closed form (hop_closed_form) whose fixed points are decidable (IRFix), with the header-whitespace drift of "
+        "class / function and the quote loss of argparse headers proved as negations (= known findings); the docstring layer itself is a parameter there",
         "theorems are about the docstring-layer normalisers of lean/CddVerif/Model/Doc.lean (tied to the code by C01's correspondence); the per-format fixpoint itself is evaluated on the real emit -> render -> re-read -> parse pipeline for every format, rounds 1..4",
     ]
     rng = chk.rng
